@@ -98,6 +98,9 @@ func init() {
 			mo := &MsgGenOpts{MaxDepth: 1, MaxBytes: 64, SingleEntry: true}
 			if big {
 				mo.MaxBytes = 65536
+				if rounds > 12 {
+					rounds = 12 // (hundreds of rounds of 64 KiB messages read a byte at a time only burn scheduler steps)
+				}
 			}
 			var rp RespPlan
 			for i := 0; i < rounds; i++ {
@@ -108,6 +111,11 @@ func init() {
 			rp.TrailerStyle = Pick(c, "announce", "prefix")
 			rp.FlushEvery = Pick(c, 0, 1)
 			bp := BackendPlan{Mode: "pingpong", ReadSizes: genSegSizes(c), Resp: rp, SplitReader: c.Prob(0.4)}
+			if big {
+				for i := range bp.ReadSizes {
+					bp.ReadSizes[i] *= 256
+				}
+			}
 			cp.Deliveries = nil
 			return &Plan{Config: ConfigPlan{Services: []ServicePlan{svc}}, RPCs: []RPCPlan{{Client: cp, Backend: bp}}, Sched: genSched(c), Pool: genPool(c), StepCap: 2000000}
 		},
